@@ -24,8 +24,8 @@ LETTERS = 'RHSFDXGEBMI'
 FILE_PATS = ['*', '', 'a', '.h', 'a|b', '!a', '*|!a', '!a|!b', '-a', '@(a|b)', '{a,b}', '**/a', 'a/*', '*/a', '*/*', 'b', '.*',
              '!*/a', '**', '[ab]', '!.h', '/a', '/*/a', '**/*|!/a/*', '/b|a',
              # the same text positive and negated in one pattern; a negation sign in front of a literal parenthesis
-             'a|!a', '!a|a', '{,!}a', '*|!*', '-(a)*', '*|-(a)', '!(a)', '!(a)|!b', '-a|a']
-EXCL_PATS = ['', 'a', '.h', '!a', 'b|a', '*/a', '**/a', 'a/', '*', '-b', '!a/b', '.*', '/a', '/a/b', 'a|!a', '-(a)', '!a|a']
+             'a|!a', '!a|a', '{,!}a', '*|!*', '-(a)*', '*|-(a)', '!(a)', '!(a)|!b', '-a|a', '//a', '*|!//a', 'zz|//a/a']
+EXCL_PATS = ['', 'a', '.h', '!a', 'b|a', '*/a', '**/a', 'a/', '*', '-b', '!a/b', '.*', '/a', '/a/b', 'a|!a', '-(a)', '!a|a', '//a']
 FILE_PATS_CASE = ['a', 'A', '[aA]', '*', '!A', 'a|B']
 
 
